@@ -128,6 +128,9 @@ func deferredOnError(cl *ssa.Function, at ssa.Instruction) bool {
 	if par == nil {
 		return false
 	}
+	if underErrNonNil(cl, at) {
+		return true
+	}
 	cell, _, _, ok := errGuardedClosure(cl, func(ssa.Instruction, uint64, bool) []uint64 { return nil })
 	if !ok || cell.Parent() != par {
 		return false
@@ -205,6 +208,78 @@ func deferredOnError(cl *ssa.Function, at ssa.Instruction) bool {
 		}
 	}
 	return true
+}
+
+// underErrNonNil: in a closure that only runs deferred, `at` sits on the non-nil side of a test of the
+// parent's error variable (`if err != nil { _ = os.Remove(path) }` at the end of a completing closure),
+// with no assignment of the variable in between, and the parent returns that variable: the function
+// reports an error whenever `at` runs.
+func underErrNonNil(cl *ssa.Function, at ssa.Instruction) bool {
+	par := cl.Parent()
+	if par == nil || !deferredOnlyClosure(cl) {
+		return false
+	}
+	idx := errorResultIndex(par.Signature)
+	if idx < 0 {
+		return false
+	}
+	for b := at.Block(); b != nil; b = b.Idom() {
+		pb := b.Idom()
+		if pb == nil {
+			break
+		}
+		iff, ok := pb.Instrs[len(pb.Instrs)-1].(*ssa.If)
+		if !ok || len(pb.Succs) != 2 || len(b.Preds) != 1 {
+			continue
+		}
+		x, nilWhen, ok := errNilTest(iff.Cond)
+		if !ok {
+			continue
+		}
+		u, ok := x.(*ssa.UnOp)
+		if !ok {
+			continue
+		}
+		fv, ok := u.X.(*ssa.FreeVar)
+		if !ok {
+			continue
+		}
+		cell := cellOf(fv)
+		if cell == nil || cell.Parent() != par {
+			continue
+		}
+		onNonNil := (pb.Succs[0] == b) != nilWhen
+		if !onNonNil {
+			continue
+		}
+		// no assignment of the variable between the test and `at`
+		clean := true
+		eachInstr(cl, func(bb *ssa.BasicBlock, in ssa.Instruction) {
+			if st, ok := in.(*ssa.Store); ok && st.Addr == ssa.Value(fv) {
+				if (bb == b || b.Dominates(bb)) && (bb == at.Block() || reachesBlock(bb, at.Block())) {
+					clean = false
+				}
+			}
+		})
+		if !clean {
+			continue
+		}
+		// the parent hands that variable back at every exit
+		all := true
+		for _, ret := range returnsOf(par) {
+			if idx >= len(ret.Results) {
+				all = false
+				continue
+			}
+			if u2, ok := ret.Results[idx].(*ssa.UnOp); !ok || u2.Op != token.MUL || u2.X != ssa.Value(cell) {
+				all = false
+			}
+		}
+		if all {
+			return true
+		}
+	}
+	return false
 }
 
 // callSitesOf: the call sites of fn — of a local closure, its calls in the
@@ -660,6 +735,34 @@ func r7bSticky(c *RuleCtx) {
 		}
 		nsites++
 		kind := "other"
+		// the constructor sits in an unexported helper that is handed the writer to wrap
+		// (`acquireInterim(&br)`): a parameter is as good as what every caller passes
+		if prm, isParam := arg.(*ssa.Parameter); isParam && prm.Parent() == fn && fn.Object() != nil && !fn.Object().Exported() {
+			pi := -1
+			for i, pp := range fn.Params {
+				if pp == prm {
+					pi = i
+				}
+			}
+			allBuf, nCallers := true, 0
+			for _, cs2 := range c.p.callersOf(fn) {
+				if !c.p.InZap(cs2.Parent()) || pi < 0 || pi >= len(cs2.Common().Args) {
+					continue
+				}
+				nCallers++
+				a2 := cs2.Common().Args[pi]
+				if mi, ok := a2.(*ssa.MakeInterface); ok {
+					a2 = mi.X
+				}
+				al, ok := root(a2).(*ssa.Alloc)
+				if !ok || !isNamed(al.Type(), "bytes", "Buffer") {
+					allBuf = false
+				}
+			}
+			if allBuf && nCallers > 0 {
+				kind = "bytes.Buffer"
+			}
+		}
 		switch a := arg.(type) {
 		case *ssa.Alloc:
 			if isNamed(a.Type(), "bytes", "Buffer") {
@@ -676,12 +779,34 @@ func r7bSticky(c *RuleCtx) {
 						flushed = true
 					}
 				}
+				// ... or in a closure of fn (a deferred completion), on the variable that holds the writer
+				for _, f2 := range c.p.ZapFuncs {
+					if f2.Parent() != fn {
+						continue
+					}
+					for _, cs2 := range callSites(f2) {
+						if !isCallTo(cs2, "(*bufio.Writer).Flush") || droppedError(cs2) {
+							continue
+						}
+						if u, ok := recvOrArg0(cs2).(*ssa.UnOp); ok {
+							if cell := cellOf(u.X); cell != nil {
+								for _, stx := range cellStores(cell) {
+									if sameValue(stx.Val, a) {
+										flushed = true
+									}
+								}
+							}
+						}
+					}
+				}
 				if !flushed {
 					kind = "bufio.Writer-unflushed"
 				}
 			}
 		case *ssa.Parameter:
-			kind = "parameter " + a.Name()
+			if kind == "other" {
+				kind = "parameter " + a.Name()
+			}
 		}
 		if isNamed(arg.Type(), "bytes", "Buffer") {
 			kind = "bytes.Buffer"
